@@ -155,3 +155,28 @@
                 && (self.calls().contains_key(s) ==> self.calls()[s] == o.calls()[s])
     }
 
+    // Only the subscription records of service `k` and of connection `id` may differ between the two states
+    spec fn only_subs_changed(&self, o: &Self, k: (ObjectUuid, ServiceUuid), id: ConnectionId) -> bool {
+        &&& self.same_rest(o)
+        &&& self.obj_uuids@ =~= o.obj_uuids@ &&& self.objs@ =~= o.objs@ &&& self.svc_uuids@ =~= o.svc_uuids@
+        &&& self.calls() =~= o.calls()
+        &&& self.svcs@.dom() =~= o.svcs@.dom() &&& self.conns@.dom() =~= o.conns@.dom()
+        &&& forall|k2: (ObjectUuid, ServiceUuid)| #![trigger self.svcs@[k2]] o.svcs@.contains_key(k2) && k2 != k ==> self.svcs@[k2] == o.svcs@[k2]
+        &&& forall|c: ConnectionId| #![trigger self.conns@[c]] o.conns@.contains_key(c) && c != id ==> self.conns@[c] == o.conns@[c]
+        &&& o.svcs@.contains_key(k) ==> {
+                &&& self.svcs@[k].cookie == o.svcs@[k].cookie &&& self.svcs@[k].object_cookie == o.svcs@[k].object_cookie
+                &&& self.svcs@[k].function_calls == o.svcs@[k].function_calls
+            }
+    }
+
+    spec fn unchanged(&self, o: &Self) -> bool {
+        &&& self.same_rest(o) &&& self.same_registry(o) &&& self.calls() =~= o.calls() &&& self.conns@ =~= o.conns@
+    }
+
+    // derived views that do not change when the `events` maps are untouched (stated so that the solver sees both sides)
+    spec fn svc_events_same(&self, o: &Self, k: (ObjectUuid, ServiceUuid)) -> bool {
+        forall|e: u32| #![trigger self.svcs@[k].subs(e)] self.svcs@[k].subs(e) == o.svcs@[k].subs(e)
+    }
+    spec fn conn_events_same(&self, o: &Self, c: ConnectionId) -> bool {
+        forall|x: ServiceCookie| #![trigger self.conns@[c].ev(x)] self.conns@[c].ev(x) == o.conns@[c].ev(x)
+    }
